@@ -96,6 +96,14 @@ def run_case(case, ctx):
         w1, w2 = rng.sample(range(1, 200), 2)
         text = text.replace('\tend\n', '#define GWIDTH %d\n\t%s\tGWIDTH\n#undef GWIDTH\n#define GWIDTH %d\n\t%s\tGWIDTH,GWIDTH\n%s\tend\n' % (
             w1, gbop, w2, gbop, '#undef GWIDTH\n' if rng.random() < 0.5 else ''))
+        # symbols that are defined but (not yet) referenced, probed by IFDEF / IFUSED / IFNUSED: cross-reference bookkeeping (-C, -u) must not
+        # count as a use; and many openings of an include file (the include bookkeeping of -I must not decide how many are possible)
+        ninc = rng.choice([3, 40, 120, 210])
+        probe = ('gunus\tequ\t%d\n\tifdef\tgunus\n\t%s\t3\n\tendif\n\tifused\tgunus\n\t%s\t1\n\tendif\n\tifnused\tgunus\n\t%s\t2,2\n\tendif\n'
+                 '\trept\t%d\n\tinclude\t"%s.inc"\n\tendm\n' % (rng.randrange(1, 99), gbop, gbop, gbop, ninc, name))
+        text = text.replace('\tend\n', probe + '\tend\n')
+        with open(os.path.join(src_dir, name + '.inc'), 'w', encoding='latin-1') as f:
+            f.write('\t%s\t%d\n' % (gbop, rng.randrange(256)))
         with open(os.path.join(src_dir, name + '.asm'), 'w', encoding='latin-1') as f:
             f.write(text)
         flags = ['-D', 'REV=%d' % rng.randrange(1, 9), '-D', 'TURBO']
